@@ -1064,34 +1064,30 @@ func isDataAttribute(val string) bool {
 }
 
 func removeUnicode(value string) string {
-	substitutedValue := value
-	currentLoc := cssUnicodeChar.FindStringIndex(substitutedValue)
+	var substitutedValue strings.Builder
+	// every escape is translated exactly once: what an escape translates to
+	// is never itself read as the start of another escape
+	currentLoc := cssUnicodeChar.FindStringIndex(value)
 	for currentLoc != nil {
 
-		character := substitutedValue[currentLoc[0]+1 : currentLoc[1]]
+		character := value[currentLoc[0]+1 : currentLoc[1]]
 		character = strings.TrimSpace(character)
-		if len(character) < 4 {
-			character = strings.Repeat("0", 4-len(character)) + character
-		} else {
-			for len(character) > 4 {
-				if character[0] != '0' {
-					character = ""
-					break
-				} else {
-					character = character[1:]
-				}
-			}
-		}
-		character = "\\u" + character
+		// \UXXXXXXXX takes exactly 8 hex digits and covers every code point
+		// that the up to 6 digits of a CSS escape can express
+		character = "\\U" + strings.Repeat("0", 8-len(character)) + character
 		translatedChar, err := strconv.Unquote(`"` + character + `"`)
-		translatedChar = strings.TrimSpace(translatedChar)
-		if err != nil {
-			return ""
+		if err != nil || translatedChar == "\x00" {
+			// CSS parsers read surrogates, NUL and anything above U+10FFFF
+			// as the replacement character
+			translatedChar = "\uFFFD"
 		}
-		substitutedValue = substitutedValue[0:currentLoc[0]] + translatedChar + substitutedValue[currentLoc[1]:]
-		currentLoc = cssUnicodeChar.FindStringIndex(substitutedValue)
+		substitutedValue.WriteString(value[0:currentLoc[0]])
+		substitutedValue.WriteString(translatedChar)
+		value = value[currentLoc[1]:]
+		currentLoc = cssUnicodeChar.FindStringIndex(value)
 	}
-	return substitutedValue
+	substitutedValue.WriteString(value)
+	return substitutedValue.String()
 }
 
 func (p *Policy) matchRegex(elementName string) (map[string][]attrPolicy, bool) {
